@@ -58,6 +58,7 @@ func runC05() {
 	}
 	srcs = append(srcs, ex...)
 	srcs = append(srcs, nestedSources()...)
+	srcs = append(srcs, shapeSources()...)
 	for i := 0; i < nRandom; i++ {
 		t := []gtype{tBool, tInt, tStr, tArrInt, tArrAny, tAny}[rng.Intn(6)]
 		srcs = append(srcs, g.expr(t, 2+rng.Intn(3)))
